@@ -188,21 +188,15 @@ def oracle_broken(model):
         return broken + ['start-id']
     if nodes[model.start_id].parent is not None:
         broken.append('parent-link')      # the root has no parent (Node = NodeId [Parent] ...)
-    seen = set()
-    stack = [model.start_id]
-    while stack:
-        cur = stack.pop()
-        if cur in seen:
-            continue        # parallel edges to one child satisfy the documented rules
-        seen.add(cur)
-        nd = nodes[cur]
+    # the documented rules speak of every node / all edges / every SignConstraint / each ConstraintOption; nodes that cannot be
+    # reached from the root are tolerated by python-ndn ("does not check this") but are nodes all the same
+    for cur, nd in enumerate(nodes):
         for e in list(nd.v_edges) + list(nd.p_edges):
             if e.dest is None or not (0 <= e.dest < n):
                 broken.append('edge-destination')
                 continue
             if nodes[e.dest].parent != cur:
                 broken.append('parent-link')
-            stack.append(e.dest)
         for pe in nd.p_edges:
             for cons in pe.cons_sets:
                 for op in cons.options:
@@ -266,10 +260,43 @@ def corruptions(model, rng, limit):
                     out += [(f'node{i}.pedge{ei}.cons{ci}.opt{oi}.clear', clear), (f'node{i}.pedge{ei}.cons{ci}.opt{oi}.two', extra_tag),
                             (f'node{i}.pedge{ei}.cons{ci}.opt{oi}.three', all3)]
     out.append(('start_id=out', lambda m: setattr(m, 'start_id', n + 1)))
+
+    def mk(i, par, v_to=None, signers=()):
+        nd = bny.Node()
+        nd.id, nd.parent, nd.rule_name, nd.v_edges, nd.p_edges, nd.sign_cons = i, par, [], [], [], list(signers)
+        if v_to is not None:
+            e = bny.ValueEdge()
+            e.dest, e.value = v_to, b'\x08\x01u'
+            nd.v_edges = [e]
+        return nd
+    signed = [i for i, nd in enumerate(model.nodes) if nd.sign_cons]
+    # nodes that cannot be reached from the root (tolerated), well-formed and not
+    out.append(('unreachable.ok', lambda m: m.nodes.append(mk(n, None))))
+    out.append(('unreachable.chain-ok', lambda m: m.nodes.extend([mk(n, None, v_to=n + 1), mk(n + 1, n)])))
+    out.append(('unreachable.cycle-ok', lambda m: m.nodes.extend([mk(n, n + 1, v_to=n + 1), mk(n + 1, n, v_to=n)])))
+    for bad in (n + 1, n + 5, 0, n - 1):
+        out.append((f'unreachable.id={bad}', lambda m, bad=bad: m.nodes.append(mk(bad, None))))
+    out.append(('unreachable.edge-out-of-range', lambda m: m.nodes.append(mk(n, None, v_to=n + 9))))
+    out.append(('unreachable.edge-to-tree-node', lambda m: m.nodes.append(mk(n, None, v_to=min(1, n - 1)))))
+    out.append(('unreachable.child-wrong-parent', lambda m: m.nodes.extend([mk(n, None, v_to=n + 1), mk(n + 1, None)])))
+    out.append(('unreachable.signer-out-of-range', lambda m: m.nodes.append(mk(n, None, signers=[n + 3]))))
+    for i in signed[:3]:
+        # a signer id beyond the array, and a node beyond the tree that claims this very id
+        def mut(m, i=i):
+            m.nodes[i].sign_cons.append(n + 4)
+            m.nodes.append(mk(n + 4, None))
+        out.append((f'node{i}.signer+unreachable-claims-id', mut))
+
+        def mut2(m, i=i):
+            m.nodes[i].sign_cons.append(n)
+            m.nodes.append(mk(n, None))
+        out.append((f'node{i}.signer-to-unreachable-ok', mut2))
     if len(out) > limit:
-        keep = [o for o in out if 'parent' in o[0] or o[0].startswith('version')]
-        rest = [o for o in out if o not in keep]
-        out = keep[:limit // 2] + rng.sample(rest, min(len(rest), limit - min(len(keep), limit // 2)))
+        first = [o for o in out if 'unreachable' in o[0]]
+        keep = [o for o in out if ('parent' in o[0] or o[0].startswith('version')) and o not in first]
+        rest = [o for o in out if o not in keep and o not in first]
+        keep = keep[:max(0, limit // 2 - len(first) // 2)]
+        out = first + keep + rng.sample(rest, min(len(rest), max(0, limit - len(first) - len(keep))))
     return out
 
 
@@ -296,6 +323,8 @@ def check_binary(ctx, rng, clean):
             w = {'schema': text, 'corruption': label, 'broken_rules': sorted(set(broken)), 'model': wire if len(wire) < 700 else wire[:350]}
             ctx.case((text, label), nontrivial=True, sample=w if ctx.evaluations % 900 == 11 else None)
             ctx.event('corruption-breaking' if broken else 'corruption-benign')
+            if 'unreachable' in label:
+                ctx.event('corruption-with-unreachable-node')
             budget = 600 * (nn + 2) * (nn + 2) + 30000
             try:
                 with monitors.Steps(limit=budget):
@@ -363,7 +392,7 @@ def run(ctx):
     clean = check_text(ctx, rng)
     check_binary(ctx, rng, clean)
     need = ['clean-schema-accepted', 'rejected-with-schema-error', 'corruption-breaking', 'corruption-benign', 'rejected-with-model-error',
-            'query-terminated', 'signed-rule-pattern-schema-accepted']
+            'query-terminated', 'signed-rule-pattern-schema-accepted', 'corruption-with-unreachable-node']
     for k in need:
         ctx.need_event(k)
     ctx.assumptions = ['documented schema error = SemanticError (from compile_lvs or Checker()), documented model error = LvsModelError',
